@@ -213,10 +213,12 @@ func TestVerifC05(t *testing.T) {
 	rr := rand.New(rand.NewSource(e.seed*6700417 + 5))
 	if e.quick() {
 		for di := range docs {
-			cases = append(cases, cdesc{di % 2, di, di % len(vC05Transforms)})
+			for tf := range vC05Transforms {
+				cases = append(cases, cdesc{(di + tf) % 2, di, tf})
+			}
 			cases = append(cases, cdesc{(di + 1) % 2, di, -1})
 		}
-		for k := 0; k < 300; k++ {
+		for k := 0; k < 600; k++ {
 			cases = append(cases, cdesc{rr.Intn(4), rr.Intn(len(docs)), rr.Intn(len(vC05Transforms))})
 		}
 		for k := range vScenarios() {
